@@ -24,6 +24,45 @@ func errResultIndex(sig *types.Signature) int {
 	return -1
 }
 
+// implementsError: t is the error interface or a concrete type with an Error() string method (qerrors.Error).
+func implementsError(t types.Type) bool {
+	if isErrorType(t) {
+		return true
+	}
+	if _, ok := t.Underlying().(*types.Interface); ok {
+		return false
+	}
+	ei := errorType.Underlying().(*types.Interface)
+	return types.Implements(t, ei) || types.Implements(types.NewPointer(t), ei)
+}
+
+// errorLikeResults: the values of call c that are errors (interface or a concrete error type).
+func errorLikeResults(c *ssa.Call) []ssa.Value {
+	sig := c.Call.Signature()
+	res := sig.Results()
+	var out []ssa.Value
+	if res.Len() == 1 {
+		if implementsError(res.At(0).Type()) {
+			out = append(out, c)
+		}
+		return out
+	}
+	for _, r := range *c.Referrers() {
+		if e, ok := r.(*ssa.Extract); ok && implementsError(res.At(e.Index).Type()) {
+			out = append(out, e)
+		}
+	}
+	if len(out) == 0 {
+		for i := 0; i < res.Len(); i++ {
+			if implementsError(res.At(i).Type()) {
+				// an error result exists but is never extracted: nothing to follow, the wrap is dropped
+				return []ssa.Value{c}
+			}
+		}
+	}
+	return out
+}
+
 // errValuesOfCall returns the SSA values holding the error result of call c
 // (the call itself for single results, Extracts for tuples). dropped is true if
 // the error result is never bound to a value at all.
@@ -150,6 +189,19 @@ func propagates(v ssa.Value) (bool, string) {
 				if o := calleeObj(t); o != nil {
 					name = o.Name()
 				}
+				// a call that hands back an error (a wrapper such as qerrors.Propagate, fmt.Errorf) is not the end
+				// of the journey: the wrapped error must reach a sink itself, otherwise `err = wrap(err)` into a
+				// shadowed variable swallows the failure
+				if call, ok := t.(*ssa.Call); ok {
+					if wrapped := errorLikeResults(call); len(wrapped) > 0 {
+						for _, w := range wrapped {
+							if ok2, how := walk(w); ok2 {
+								return true, "wrapped by " + name + ", then " + how
+							}
+						}
+						continue
+					}
+				}
 				return true, "passed to " + name
 			case *ssa.BinOp:
 				// comparison with nil: a sink only if the non-nil branch itself reports a failure
@@ -251,8 +303,17 @@ func handledByBranch(cmp *ssa.BinOp, v ssa.Value) bool {
 					switch {
 					case o.Pkg().Path() == rel("qerrors") && (o.Name() == "New" || o.Name() == "Propagate"),
 						o.Pkg().Path() == "fmt" && o.Name() == "Errorf",
-						o.Pkg().Path() == "errors" && o.Name() == "New",
-						curProg != nil && curProg.isErrSetter(o):
+						o.Pkg().Path() == "errors" && o.Name() == "New":
+						// the error constructed on the failure side must itself go somewhere: assigned to a
+						// shadowed variable that nobody reads, it reports nothing
+						if call, ok := t.(*ssa.Call); ok && !inRetry {
+							if okP, _ := propagates(call); okP {
+								return true
+							}
+							continue
+						}
+						return true
+					case curProg != nil && curProg.isErrSetter(o):
 						return true
 					}
 				}
@@ -641,6 +702,380 @@ func runR31(c *Ctx) {
 		})
 	}
 	c.note("exempted_calls", exempted)
+	r31SuccessAfterUnchecked(c)
+	r31DeferredOverwrite(c)
+}
+
+// r31SuccessAfterUnchecked (clause b): in a function that itself returns an error, no return with a nil
+// constant in the error slot is reachable from a call that produced an error value v along a path on which
+// v was never looked at: no branch on v (== nil, != nil, == io.EOF), no sink of v (stored, handed on,
+// returned), no repetition of the call. Path-insensitive R31 accepts an error that is returned on one path and
+// silently dropped on another (`if n > 0 { return n, nil }` before the error was looked at).
+func r31SuccessAfterUnchecked(c *Ctx) {
+	p := c.P
+	for _, fn := range p.Funcs {
+		if errResultIndex(fn.Signature) < 0 || fn.Blocks == nil {
+			continue
+		}
+		var rets []*ssa.Return
+		eachInstr(fn, func(in ssa.Instruction) {
+			if r, ok := in.(*ssa.Return); ok && returnsNilError(r) {
+				rets = append(rets, r)
+			}
+		})
+		if len(rets) == 0 {
+			continue
+		}
+		eachInstr(fn, func(in ssa.Instruction) {
+			call, ok := in.(*ssa.Call)
+			if !ok {
+				return
+			}
+			sig := call.Call.Signature()
+			if sig == nil || errResultIndex(sig) < 0 {
+				return
+			}
+			obj := calleeObj(call)
+			if obj != nil && obj.Name() == "Err" && sig.Params().Len() == 0 && sig.Recv() != nil {
+				return
+			}
+			for _, e := range r31Exempt {
+				if obj != nil && isFuncNamed(obj, e.pkg, e.recv, e.name) {
+					return
+				}
+			}
+			vals, dropped := errValuesOfCall(call)
+			if dropped || len(vals) == 0 {
+				return // clause a reports it
+			}
+			name := "dynamic call"
+			if obj != nil {
+				name = obj.Name()
+			}
+			key := fname(fn) + "|" + name + "|checked before success"
+			v := vals[0]
+			aliases := errAliases(v)
+			from := call.Block()
+			reach := map[*ssa.BasicBlock]bool{}
+			for _, b := range reachableAvoiding(from, func(*ssa.BasicBlock) bool { return false }) {
+				reach[b] = true
+			}
+			for _, r := range rets {
+				rb := r.Block()
+				if rb != from && !reach[rb] {
+					continue
+				}
+				if rb == from && !precedes(call, r) {
+					continue
+				}
+				if why := errSettledBefore(p, aliases, call, r); why != "" {
+					continue
+				}
+				c.bad(key, p.instrPos(r), fmt.Sprintf("success (nil error) is returned at %s on a path from the call of %s at %s on which its error was neither tested nor handed on: when the call fails on that path the failure is swallowed", p.instrPos(r), name, p.instrPos(call)))
+				return
+			}
+			c.okTrivial(key, p.instrPos(call), "every nil-error return reachable from the call lies behind a test of its error or a sink")
+		})
+	}
+}
+
+// errAliases: v plus phis / interface conversions / local cells it flows through (within the function).
+func errAliases(v ssa.Value) map[ssa.Value]bool {
+	out := map[ssa.Value]bool{}
+	var walk func(x ssa.Value)
+	walk = func(x ssa.Value) {
+		if out[x] {
+			return
+		}
+		out[x] = true
+		refs := x.Referrers()
+		if refs == nil {
+			return
+		}
+		for _, r := range *refs {
+			switch t := r.(type) {
+			case *ssa.Phi:
+				walk(t)
+			case *ssa.MakeInterface:
+				walk(t)
+			case *ssa.ChangeInterface:
+				walk(t)
+			case *ssa.ChangeType:
+				walk(t)
+			case *ssa.Store:
+				if t.Val == x {
+					if a, ok := t.Addr.(*ssa.Alloc); ok {
+						for _, ar := range *a.Referrers() {
+							if l, ok := ar.(*ssa.UnOp); ok && l.Op == token.MUL {
+								walk(l)
+							}
+						}
+					}
+				}
+			}
+		}
+	}
+	walk(v)
+	return out
+}
+
+// errSettledBefore: "" when some path leads from the call to the return r without crossing a branch edge that
+// establishes `error is nil` (or `error is io.EOF`), a block in which the error reaches a sink, or a
+// repetition of the same operation; otherwise the reason the return is fine.
+func errSettledBefore(p *Prog, aliases map[ssa.Value]bool, call *ssa.Call, r *ssa.Return) string {
+	rb := r.Block()
+	obj := calleeObj(call)
+	// position of the first sink / retry per block (instructions after the call in the call's own block)
+	settlesAt := func(b *ssa.BasicBlock, from int) int {
+		for i := from; i < len(b.Instrs); i++ {
+			in := b.Instrs[i]
+			switch t := in.(type) {
+			case *ssa.Store:
+				if aliases[t.Val] {
+					if _, local := t.Addr.(*ssa.Alloc); !local {
+						return i
+					}
+				}
+			case *ssa.MapUpdate:
+				if aliases[t.Value] {
+					return i
+				}
+			case *ssa.Send:
+				if aliases[t.X] {
+					return i
+				}
+			case *ssa.Panic:
+				return i
+			case ssa.CallInstruction:
+				cc := t.Common()
+				for _, arg := range cc.Args {
+					if aliases[arg] && !(cc.IsInvoke() && cc.Value == arg) {
+						return i
+					}
+				}
+				if rc, ok := in.(*ssa.Call); ok && rc != call && obj != nil && calleeObj(rc) == obj {
+					return i // the operation is attempted again: its own error is a separate obligation
+				}
+			case *ssa.Return:
+				// returning the error itself
+				for _, res := range t.Results {
+					if aliases[res] {
+						return i
+					}
+				}
+			}
+		}
+		return -1
+	}
+	idxOf := func(b *ssa.BasicBlock, in ssa.Instruction) int {
+		for i, x := range b.Instrs {
+			if x == in {
+				return i
+			}
+		}
+		return -1
+	}
+	seen := map[*ssa.BasicBlock]bool{}
+	var visit func(b *ssa.BasicBlock, from int) bool // true = a bad path reaches r
+	visit = func(b *ssa.BasicBlock, from int) bool {
+		if from == 0 {
+			if seen[b] || b == call.Block() {
+				return false // back at the call: a new error value replaces this one
+			}
+			seen[b] = true
+		}
+		stop := settlesAt(b, from)
+		if b == rb {
+			ri := idxOf(b, r)
+			if ri >= from && (stop < 0 || stop > ri) {
+				return true
+			}
+		}
+		if stop >= 0 {
+			return false
+		}
+		if len(b.Instrs) == 0 {
+			return false
+		}
+		if iff, ok := b.Instrs[len(b.Instrs)-1].(*ssa.If); ok {
+			// a branch on the error itself (either way): what follows is a decision taken in knowledge of the
+			// failure (type inference falls back to the next type, end of input ends a loop); whether the
+			// failure side reports is clause (a)'s business
+			if condSettlesErr(iff.Cond, true, aliases) || condSettlesErr(iff.Cond, false, aliases) {
+				return false
+			}
+			for si := range []bool{true, false} {
+				if visit(b.Succs[si], 0) {
+					return true
+				}
+			}
+			return false
+		}
+		for _, s := range b.Succs {
+			if visit(s, 0) {
+				return true
+			}
+		}
+		return false
+	}
+	if visit(call.Block(), idxOf(call.Block(), call)+1) {
+		return ""
+	}
+	return "settled on every path"
+}
+
+// condSettlesErr: the branch outcome (cond == val) implies that the error is nil, or that it is io.EOF
+// (end of input, deliberately a success), for one of the aliases. Conjunctions/disjunctions are unfolded.
+func condSettlesErr(cond ssa.Value, val bool, aliases map[ssa.Value]bool) bool {
+	cond, val = unNot(cond, val)
+	switch t := cond.(type) {
+	case *ssa.BinOp:
+		if t.Op != token.EQL && t.Op != token.NEQ {
+			return false
+		}
+		var other ssa.Value
+		switch {
+		case aliases[t.X]:
+			other = t.Y
+		case aliases[t.Y]:
+			other = t.X
+		default:
+			return false
+		}
+		isEq := (t.Op == token.EQL) == val
+		if !isEq {
+			return false
+		}
+		if cst, ok := other.(*ssa.Const); ok && cst.IsNil() {
+			return true
+		}
+		// err == io.EOF
+		if u, ok := other.(*ssa.UnOp); ok && u.Op == token.MUL {
+			if g, ok := u.X.(*ssa.Global); ok && g.Pkg != nil && g.Pkg.Pkg.Path() == "io" && g.Name() == "EOF" {
+				return true
+			}
+		}
+	case *ssa.Phi:
+		// short-circuit && / ||: (a && b) == true implies both; handled conservatively: every non-constant
+		// edge must settle it when val is true for &&-shaped phis (constant false edges), and symmetrically
+		allConstFalse, allConstTrue := true, true
+		var nonConst []ssa.Value
+		for _, e := range t.Edges {
+			if isConstBool(e, false) {
+				allConstTrue = false
+				continue
+			}
+			if isConstBool(e, true) {
+				allConstFalse = false
+				continue
+			}
+			nonConst = append(nonConst, e)
+		}
+		_ = allConstFalse
+		_ = allConstTrue
+		if val {
+			// a && b: constant edges are false; being true means the last operand was evaluated and true,
+			// which is only reachable when the earlier operands were true as well: enough that ANY operand settles
+			for _, e := range nonConst {
+				if condSettlesErr(e, true, aliases) {
+					return true
+				}
+			}
+			// the conditions of the branches that lead to the non-constant edge
+			for i, e := range t.Edges {
+				if isConstBool(e, false) {
+					pred := t.Block().Preds[i]
+					if iff, ok := pred.Instrs[len(pred.Instrs)-1].(*ssa.If); ok {
+						// this pred took the false edge of an earlier operand: the operand itself, when true, settles?
+						if condSettlesErr(iff.Cond, true, aliases) {
+							return true
+						}
+					}
+				}
+			}
+		}
+	}
+	return false
+}
+
+// r31DeferredOverwrite (clause c): a deferred function literal that assigns a captured error variable of the
+// enclosing function (its named result) must not overwrite an earlier failure: the store is dominated by a
+// test that the variable is nil at that moment, or the stored value is computed from the variable's current
+// value (a wrap). `defer func() { err = f.Close() }()` turns a failed write into success when Close works.
+func r31DeferredOverwrite(c *Ctx) {
+	p := c.P
+	for _, fn := range p.Funcs {
+		if fn.Parent() == nil || len(fn.FreeVars) == 0 {
+			continue
+		}
+		// is fn deferred by its parent?
+		deferred := false
+		eachInstr(fn.Parent(), func(in ssa.Instruction) {
+			if d, ok := in.(*ssa.Defer); ok {
+				if mc, ok := d.Call.Value.(*ssa.MakeClosure); ok && mc.Fn == fn {
+					deferred = true
+				}
+			}
+		})
+		if !deferred {
+			continue
+		}
+		for _, fv := range fn.FreeVars {
+			pt, ok := fv.Type().(*types.Pointer)
+			if !ok || !isErrorType(pt.Elem()) {
+				continue
+			}
+			for _, r := range *fv.Referrers() {
+				st, ok := r.(*ssa.Store)
+				if !ok || st.Addr != fv {
+					continue
+				}
+				key := fname(fn.Parent()) + "|deferred store to " + fv.Name()
+				if cst, ok := st.Val.(*ssa.Const); ok && cst.IsNil() {
+					c.bad(key, p.instrPos(st), "a deferred function clears the enclosing function's error variable")
+					continue
+				}
+				guarded := false
+				for _, g := range dominatingGuards(st.Block()) {
+					if b, ok := g.Cond.(*ssa.BinOp); ok && (b.Op == token.EQL || b.Op == token.NEQ) {
+						isEq := (b.Op == token.EQL) == g.Val
+						for _, side := range [][2]ssa.Value{{b.X, b.Y}, {b.Y, b.X}} {
+							if l, ok := side[0].(*ssa.UnOp); ok && l.Op == token.MUL && l.X == fv {
+								if cst, ok := side[1].(*ssa.Const); ok && cst.IsNil() && isEq {
+									guarded = true
+								}
+							}
+						}
+					}
+				}
+				// value derived from the variable's own current value
+				derived := false
+				var dep func(v ssa.Value, d int) bool
+				dep = func(v ssa.Value, d int) bool {
+					if d > 6 {
+						return false
+					}
+					if l, ok := v.(*ssa.UnOp); ok && l.Op == token.MUL && l.X == fv {
+						return true
+					}
+					if in, ok := v.(ssa.Instruction); ok {
+						for _, op := range in.Operands(nil) {
+							if *op != nil && dep(*op, d+1) {
+								return true
+							}
+						}
+					}
+					return false
+				}
+				derived = dep(st.Val, 0)
+				if guarded || derived {
+					c.ok(key, p.instrPos(st), "the deferred assignment keeps an earlier failure")
+				} else {
+					c.bad(key, p.instrPos(st), fmt.Sprintf("the deferred function assigns %s unconditionally: the error the function was about to return is replaced by the result of the cleanup call, so a failed operation reports success when the cleanup succeeds", fv.Name()))
+				}
+			}
+		}
+	}
 }
 
 func runR41(c *Ctx) {
